@@ -107,7 +107,12 @@ fn main() {
         }
     }
     // panics of the implementation are observations, not noise
-    std::panic::set_hook(Box::new(|_| {}));
+    // (OKV_PANIC_LOG=1 prints them with their location, to find a panic of the harness itself)
+    if std::env::var_os("OKV_PANIC_LOG").is_some() {
+        std::panic::set_hook(Box::new(|info| eprintln!("[panic] {}\n{}", info, std::backtrace::Backtrace::force_capture())));
+    } else {
+        std::panic::set_hook(Box::new(|_| {}));
+    }
     match prop.as_str() {
         "c07" => c07::run(&o),
         "c01" => c01::run(&o),
